@@ -22,16 +22,19 @@ import (
 // Opts describes one render.
 type Opts struct {
 	HTML    string
-	UserCSS []string          // user-origin style sheets
-	Hints   bool              // presentational hints
-	Engine  string            // "pango" (default) or "gotext"
-	Zoom    float32           // default 1
-	BaseURL string            // default "mem://doc/"
-	Files   map[string]string // in-memory resources served under mem://doc/<name>
+	UserCSS []string               // user-origin style sheets
+	Hints   bool                   // presentational hints
+	Engine  string                 // "pango" (default) or "gotext"
+	Zoom    float32                // default 1
+	BaseURL string                 // default "mem://doc/"
+	Files   map[string]string      // in-memory resources served under mem://doc/<name>
 	Fonts   text.FontConfiguration // optional: reuse a configuration
-	NoWrite bool              // layout only (no drawing)
+	NoWrite bool                   // layout only (no drawing)
 	// NoProgressMonitor leaves layout.VerifPageHook alone (concurrent renders: the hook is a global)
 	NoProgressMonitor bool
+	// Phase, when not nil, is set to "parse", "layout" and then "write" as the render advances, so that a
+	// caller that recovers a panic knows where it came from
+	Phase *string
 }
 
 // Rendered is everything observable from one render.
@@ -188,6 +191,12 @@ func Render(o Opts) (res *Rendered, err error) {
 			}
 		}()
 	}
+	phase := func(p string) {
+		if o.Phase != nil {
+			*o.Phase = p
+		}
+	}
+	phase("parse")
 	fonts := o.Fonts
 	if fonts == nil {
 		var err error
@@ -214,6 +223,7 @@ func Render(o Opts) (res *Rendered, err error) {
 		}
 		sheets = append(sheets, css)
 	}
+	phase("layout")
 	if o.NoWrite {
 		out.Pages = layout.Layout(html, sheets, o.Hints, fonts)
 		return out, nil
@@ -224,6 +234,7 @@ func Render(o Opts) (res *Rendered, err error) {
 		zoom = 1
 	}
 	out.Rec = rec.New()
+	phase("write")
 	out.Document.Write(out.Rec, backend.Fl(zoom), nil)
 	out.Rec.Finish()
 	return out, nil
